@@ -571,7 +571,7 @@ theorem inv_addGatesFromStr (np ne : Nat) (T0 : PSet) (s s' : St) (gl : List Gat
 
 theorem inv_rref (np ne : Nat) (T0 : PSet) (s : St) (t1 : STab) (brs : List String) (h : Inv np ne T0 s)
     (hr : s.t.rref = .ok (t1, brs)) : Inv np ne T0 { s with t := t1 } := by
-  obtain ⟨se, g1⟩ := rref_spanEq s.t t1 brs h.good hr
+  obtain ⟨se, g1⟩ := rref_spanEq_ss s.t t1 brs h.good hr
   exact inv_spanEq np ne T0 s t1 h se g1
 
 theorem inv_photonLoop (np ne : Nat) (T0 : PSet) (js : List Nat) (hjs : ∀ j, j ∈ js → 1 ≤ j ∧ j ≤ np) (s s' : St)
